@@ -87,7 +87,8 @@ def main():
             doc = json.load(f)
         spec = doc['spec']
         try:
-            res = prop.execute(spec)
+            # executed in a forked child so that a crash of the code under test is reported, not suffered
+            res = runner.execute_spec(prop, spec)
         except Exception as e:  # noqa
             import traceback
             traceback.print_exc()
